@@ -15,9 +15,15 @@ Three families of cases, all against the Lean model `VOPy.Adaptive` (driver ops 
 
 (R) verdicts are evaluated on the real arrays with exact rationals: array consistency, 2^d children
 with half side / centre point / depth+1 / parent's region, leaves tile [0,1]^d (inside the cube,
-pairwise interior-disjoint, volume sum exactly 1), S ∪ P are leaves and disjoint, a refined node is
-replaced by its children in the same set, depth ≤ max depth under guarded refinement, members of P
-at maximum depth.  (F): every array, S, P, latch, counters equal the model replay.
+pairwise interior-disjoint, volume sum exactly 1 — for finitely many closed boxes inside the cube
+that is equivalent to covering it), S ∪ P are leaves and disjoint, every leaf is active or was removed
+by discarding() and discarded designs stay inactive, a refined node is replaced by its children in
+the same set, depth ≤ max depth under guarded refinement, members of P at maximum depth.
+(F): every array, S, P, latch, counters, leaf set, discarded set equal the model replay
+(`Algo.run` / `Space.runOps` on the observed operation sequence).
+
+A crash of the real code inside a run ends the observation of that run and is recorded as
+`run_crash_info:<exception>@<frame>` (crash-freedom is C06's verdict, not C18's).
 """
 from fractions import Fraction
 from itertools import product as _product
@@ -447,10 +453,14 @@ def run_case(ctx, case):
     if kind == "run":
         import torch
 
+        import warnings
+
         st, nt = np.random.get_state(), torch.get_num_threads()
         torch.set_num_threads(1)     # deterministic and much faster on a loaded machine
         try:
-            return _run_algo(ctx, case)
+            with warnings.catch_warnings():
+                warnings.simplefilter("ignore")   # numpy RuntimeWarnings from vopy.utils (0/0 in a helper)
+                return _run_algo(ctx, case)
         finally:
             np.random.set_state(st)
             torch.set_num_threads(nt)
